@@ -419,6 +419,7 @@ func init() {
 	extModels["os.Rename"] = sysCall("rename", errOnly)
 	extModels["os.Remove"] = sysCall("remove", errOnly)
 	extModels["os.Stat"] = sysCall("stat", nil)
+	extModels["github.com/mitchellh/pointerstructure.Set"] = sysCall("psset", nil)
 	extModels["os.OpenFile"] = sysCall("openfile", func(r *FnRun, st *State, args []*V, res []*V) {
 		// (file, err): exactly one of them is set; a returned file is a new object
 		f, e := res[0], res[1]
@@ -692,4 +693,82 @@ func init() {
 		anyT := types.NewInterfaceType(nil, nil)
 		return &V{K: KIface, T: anyT, Tag: sSel(st.comp("list.Element.Value#tag", 1, "Int"), e), Val: sSel(st.comp("list.Element.Value#val", 1, "Int"), e)}
 	})}
+}
+
+// ---- strings.Split and reflect (abstract observers) ----
+func init() {
+	extModels["strings.Split"] = &model{doc: "fresh slice of at least one segment; segment i is uf(strings.Split, s, sep, i), their number uf(strings.SplitN, s, sep)", fams: []string{"elem:string"}, fn: simple(func(r *FnRun, st *State, instr ssa.Instruction, args []*V) *V {
+		arr := st.allocRef()
+		r.eng.declare("(declare-fun |uf:strings.Split| (Int Int Int) Int)")
+		r.eng.declare("(declare-fun |uf:strings.SplitN| (Int Int) Int)")
+		n := "(|uf:strings.SplitN| " + args[0].S + " " + args[1].S + ")"
+		st.assume("(>= " + n + " 1)")
+		row := r.fresh("splitrow", "(Array Int Int)")
+		i := mangle("q:i")
+		st.assume("(forall ((" + i + " Int)) (! (= (select " + row + " " + i + ") (|uf:strings.Split| " + args[0].S + " " + args[1].S + " " + i + ")) :pattern ((select " + row + " " + i + "))))")
+		r.setRow(st, "elem:string", "Int", arr, row)
+		return &V{K: KSlice, T: resType(instr), Arr: arr, Off: "0", Len: n, Cap: n}
+	})}
+	// reflect: a reflect.Value is an abstract integer; observers are uninterpreted functions of it
+	rv := func(name string) *model {
+		return &model{doc: "uninterpreted observer of the reflect.Value", fn: simple(func(r *FnRun, st *State, instr ssa.Instruction, args []*V) *V {
+			rt := resType(instr)
+			var ts, sorts []string
+			for _, a := range args {
+				for _, l := range leavesSorted(a) {
+					ts = append(ts, l[0])
+					sorts = append(sorts, l[1])
+				}
+			}
+			fn := mangle("uf:reflect." + name)
+			switch r.eng.shape(rt) {
+			case KBool:
+				r.eng.declare("(declare-fun " + fn + " (" + strings.Join(sorts, " ") + ") Bool)")
+				return &V{K: KBool, T: rt, S: sApp(fn, ts...)}
+			case KIface:
+				// reflect.Type results: an interface whose value part identifies the type
+				r.eng.declare("(declare-fun " + fn + " (" + strings.Join(sorts, " ") + ") Int)")
+				return &V{K: KIface, T: rt, Tag: r.eng.typeIDByName("reflect.rtype"), Val: sApp(fn, ts...)}
+			case KSlice:
+				r.eng.declare("(declare-fun " + fn + " (" + strings.Join(sorts, " ") + ") Int)")
+				r.eng.declare("(declare-fun |uf:reflect.len| (Int) Int)")
+				a := sApp(fn, ts...)
+				ln := "(|uf:reflect.len| " + a + ")"
+				st.assume("(>= " + ln + " 0)")
+				return &V{K: KSlice, T: rt, Arr: a, Off: "0", Len: ln, Cap: ln}
+			default:
+				r.eng.declare("(declare-fun " + fn + " (" + strings.Join(sorts, " ") + ") Int)")
+				v := vInt(sApp(fn, ts...), rt)
+				if name == "Len" {
+					st.assume("(>= " + v.S + " 0)")
+				}
+				return v
+			}
+		})}
+	}
+	for _, m := range []string{"Kind", "Elem", "CanSet", "IsNil", "String", "Bytes", "Len", "IsValid", "CanInterface", "IsZero"} {
+		extModels["(reflect.Value)."+m] = rv(m)
+	}
+	extModels["(reflect.Value).Index"] = rv("Index")
+	extModels["(reflect.Value).Type"] = rv("Type")
+	extModels["reflect.ValueOf"] = rv("ValueOf")
+	extModels["reflect.Indirect"] = rv("Indirect")
+	extModels["reflect.TypeOf"] = &model{doc: "the dynamic type of the argument, as a reflect.Type whose identity is the type tag", fn: simple(func(r *FnRun, st *State, instr ssa.Instruction, args []*V) *V {
+		r.eng.declare("(declare-fun |uf:reflect.Type| (Int) Int)")
+		return &V{K: KIface, T: resType(instr), Tag: sIte(sEq(args[0].Tag, "0"), "0", r.eng.typeIDByName("reflect.rtype")), Val: sIte(sEq(args[0].Tag, "0"), "0", args[0].Tag)}
+	})}
+	setter := func(name string) *model {
+		return &model{doc: "mutation through reflection: trace event reflect:set a0=target value a1=new data", emits: true, fn: simple(func(r *FnRun, st *State, instr ssa.Instruction, args []*V) *V {
+			data := identityLeaves(args[1])[0]
+			if args[1].K == KSlice {
+				// bytes converted from a string: record the string it came from
+				r.eng.declare("(declare-fun bytes2str (Int Int Int) Int)")
+				data = "(bytes2str " + args[1].Arr + " " + args[1].Off + " " + args[1].Len + ")"
+			}
+			st.emit("reflect:set", args[0].S, data)
+			return unit()
+		})}
+	}
+	extModels["(reflect.Value).SetString"] = setter("SetString")
+	extModels["(reflect.Value).SetBytes"] = setter("SetBytes")
 }
